@@ -11,7 +11,7 @@ def main(tier, seed, replay):
     run = Run(pid, tier, seed)
     run.trusted = list(KERNEL_TB)
     try:
-        translate(["TablesCodec"])
+        translate(["TablesCodec", "TablesFnv"])
         codec.write_fam_env()
     except Broken as b:
         run.broken.append(b)
